@@ -28,6 +28,8 @@ def handle (line : String) : String :=
   match words line with
   | ["module", r, a] => match parseRes r, parseApi a with
     | some r, some a => showRes (chooseModule genRepo r a) | _, _ => "bad-op"
+  | ["cmodule", d, r, a] => match d.toInt?, parseRes r, parseApi a with
+    | some d, some r, some a => showRes (chooseModule { genRepo with defaultApi := d } r a) | _, _, _ => "bad-op"
   | ["oldmodule", r, a] => match parseRes r, parseApi a with
     | some r, some a => showRes (chooseModuleOld genRepo r a) | _, _ => "bad-op"
   | ["loadperm", a] => match parseApi a with
